@@ -184,6 +184,9 @@ type Instance struct {
 	SlowWriter bool
 	// FailWrites makes every Write of the in-process ResponseWriter fail (the client hung up).
 	FailWrites bool
+	// Watchdog > 0: a request that has not been answered after that much real time is given up (Response.Hung);
+	// its goroutine is left behind. Meant for deadlocks: set it orders of magnitude above any honest latency.
+	Watchdog time.Duration
 	// ReqTweak, when non-nil, may alter the request (headers, ContentLength, Body) just before it is served.
 	ReqTweak func(*http.Request)
 }
@@ -277,6 +280,8 @@ type Response struct {
 	Header http.Header
 	// NoHandler is set when the instance has no handler for the path.
 	NoHandler bool
+	// Hung is set when the Watchdog gave the request up.
+	Hung bool
 }
 
 // Do sends a request to the handler registered for path (e.g. "/ct/v1/get-sth").
@@ -301,12 +306,27 @@ func (i *Instance) Do(ctx context.Context, method, path, rawQuery string, body [
 		i.ReqTweak(req)
 	}
 	w := httptest.NewRecorder()
-	if i.FailWrites {
-		h.ServeHTTP(brokenWriter{w}, req)
-	} else if i.SlowWriter {
-		h.ServeHTTP(slowWriter{w}, req)
+	serve := func() {
+		if i.FailWrites {
+			h.ServeHTTP(brokenWriter{w}, req)
+		} else if i.SlowWriter {
+			h.ServeHTTP(slowWriter{w}, req)
+		} else {
+			h.ServeHTTP(w, req)
+		}
+	}
+	if i.Watchdog > 0 {
+		done := make(chan struct{})
+		go func() { defer close(done); serve() }()
+		tm := time.NewTimer(i.Watchdog)
+		defer tm.Stop()
+		select {
+		case <-done:
+		case <-tm.C:
+			return Response{Hung: true}
+		}
 	} else {
-		h.ServeHTTP(w, req)
+		serve()
 	}
 	return Response{Status: w.Code, Body: w.Body.Bytes(), Header: w.Header()}
 }
